@@ -53,6 +53,27 @@ func hasBlankIdentifier(tup *types.Tuple) bool {
 	return false
 }
 
+// UnusedName returns a name for a variable that a generated function declares itself.
+// It is the given name, followed by as many underscores as it takes to differ from the name of every variable in the given tuples,
+// for example the parameters and the named results of a function provided by the user, which are in scope in the generated function as well.
+func UnusedName(name string, tuples ...*types.Tuple) string {
+	for isUsed(name, tuples) {
+		name += "_"
+	}
+	return name
+}
+
+func isUsed(name string, tuples []*types.Tuple) bool {
+	for _, tup := range tuples {
+		for i := 0; i < tup.Len(); i++ {
+			if tup.At(i).Name() == name {
+				return true
+			}
+		}
+	}
+	return false
+}
+
 func rename(tup *types.Tuple, prefix string) *types.Tuple {
 	vars := make([]*types.Var, tup.Len())
 	for i := range vars {
